@@ -21,11 +21,13 @@ Section XmrB58.
   (* str.rjust(w, c): never truncates *)
   Definition rjust (w : nat) (c : N) (s : list N) : list N := repeat c (w - length s) ++ s.
 
-  (* __UnPad: dec_bytes[len(dec_bytes) - unpad_len : len(dec_bytes)] with Python's treatment of a
+  (* __UnPad: a block whose value needs more than unpad_len bytes is refused; otherwise
+     dec_bytes[len(dec_bytes) - unpad_len : len(dec_bytes)] with Python's treatment of a
      negative start index (counted from the end, clamped at 0) *)
-  Definition unpad (d : list N) (u : nat) : list N :=
+  Definition unpad (d : list N) (u : nat) : res (list N) :=
     let L := length d in
-    if (u <=? L)%nat then skipn (L - u) d else skipn (L - (u - L)) d.
+    guard (length (lstrip 0 d) <=? u)%nat else ValueError ;;
+    Ok (if (u <=? L)%nat then skipn (L - u) d else skipn (L - (u - L)) d).
 
   (* BLOCK_ENC_BYTE_LENS[k] *)
   Definition enc_len (k : nat) : nat := nth k enc_lens 0%nat.
@@ -59,12 +61,13 @@ Section XmrB58.
       if (length s <? enc_max)%nat then
         match s with
         | [] => Ok []
-        | _ => d <- b58dec s ;; Ok (unpad d last_dec_len)
+        | _ => d <- b58dec s ;; unpad d last_dec_len
         end
       else
         d <- b58dec (firstn enc_max s) ;;
+        blk <- unpad d dec_max ;;
         rest <- dec_blocks f last_dec_len (skipn enc_max s) ;;
-        Ok (unpad d dec_max ++ rest)
+        Ok (blk ++ rest)
     end.
 
   Definition decode (s : list N) : res (list N) :=
